@@ -127,6 +127,8 @@ def run(ctx):
                                     pr = gb.trace(r.data[1]["args"][0])
                                     if not (pr and all(p.kind == "param" and p.path[-1:] == (("f", "predicate"),) for p in pr)):
                                         ok_recv = False
+                                elif r.kind == "param" and ("f", "predicate") in r.path:
+                                    pass          # version() called on the payload of self.predicate directly (a match on its variants)
                                 else:
                                     ok_recv = False
                         if ok_recv:
